@@ -204,6 +204,7 @@ func execRcpt(a []string) Result {
 	var opts []receipt.Option
 	var forkLinks []string
 	var forks []fx.Effect
+	var linkOnly []invocation.Invocation
 	for i, f := range s.Forks {
 		if f == "dup" && len(forks) > 0 { // the same effect listed again
 			forks = append(forks, forks[len(forks)-1])
@@ -213,8 +214,11 @@ func execRcpt(a []string) Result {
 			forks = append(forks, fx.FromInvocation(fi))
 			forkLinks = append(forkLinks, "inv:"+fi.Link().String())
 		} else {
-			forks = append(forks, fx.FromLink(dummyLink(100+i)))
-			forkLinks = append(forkLinks, "link:"+dummyLink(100+i).String())
+			// cited by link only; the invocation itself exists (and travels in other receipts, see history)
+			li := mkInv(fmt.Sprintf("forklink%d", i))
+			linkOnly = append(linkOnly, li)
+			forks = append(forks, fx.FromLink(li.Link()))
+			forkLinks = append(forkLinks, "link:"+li.Link().String())
 		}
 	}
 	if len(forks) > 0 {
@@ -227,8 +231,10 @@ func execRcpt(a []string) Result {
 		opts = append(opts, receipt.WithJoin(fx.FromInvocation(ji)))
 		joinLink = "inv:" + ji.Link().String()
 	case "link":
-		opts = append(opts, receipt.WithJoin(fx.FromLink(dummyLink(200))))
-		joinLink = "link:" + dummyLink(200).String()
+		li := mkInv("joinlink")
+		linkOnly = append(linkOnly, li)
+		opts = append(opts, receipt.WithJoin(fx.FromLink(li.Link())))
+		joinLink = "link:" + li.Link().String()
 	}
 	if len(s.Meta) > 0 {
 		meta := map[string]any{}
@@ -358,16 +364,45 @@ func execRcpt(a []string) Result {
 				}
 			}
 		}
+		// what a caller does with the values an accessor returned must not change what the receipt reports
+		disturb := func(meta map[string]any, forks []fx.Effect, ps delegation.Proofs) {
+			for k := range meta {
+				delete(meta, k)
+			}
+			meta["scribbled"] = 1
+			for i := range forks {
+				forks[i] = fx.Effect{}
+			}
+			for i := range ps {
+				ps[i] = delegation.FromLink(dummyLink(999))
+			}
+		}
 		switch s.Reader {
 		case "untyped":
-			rdr, err := receipt.NewReceiptReader[ipld.Node, ipld.Node](anyResultSchema)
+			// one reader for the whole process; history: it has just read another receipt of the same run
+			// that EMBEDS the invocations this one cites by link only
+			rdr, err := sharedAnyReader()
 			if err != nil {
 				return a, err
+			}
+			if len(linkOnly) > 0 || s.RanKind == "link" {
+				var hfx []fx.Effect
+				for _, li := range linkOnly {
+					hfx = append(hfx, fx.FromInvocation(li))
+				}
+				hopts := []receipt.Option{}
+				if len(hfx) > 0 {
+					hopts = append(hopts, receipt.WithFork(hfx...))
+				}
+				if hist, herr := receipt.Issue(sg, result.Ok[tvBuilder, tvBuilder](tvBuilder{tvInt(0)}), ran.FromInvocation(inv), hopts...); herr == nil {
+					rdr.Read(hist.Root().Link(), hist.Blocks())
+				}
 			}
 			r, err := rdr.Read(rl, back.Blocks())
 			if err != nil {
 				return a, err
 			}
+			disturb(r.Meta(), r.Fx().Fork(), r.Proofs())
 			o, x := result.Unwrap(r.Out())
 			if o != nil {
 				a.out, a.okSide = nodeBytes(o), true
@@ -394,6 +429,7 @@ func execRcpt(a []string) Result {
 			}
 			n, _ := typedOK{N: v.N, Status: v.Status.S}.ToIPLD()
 			a.out = nodeBytes(n)
+			disturb(r.Meta(), r.Fx().Fork(), r.Proofs())
 			fill(r.Ran().Link(), r.Issuer(), r.Fx(), r.Meta(), r.Proofs())
 		default:
 			var r receipt.Receipt[typedOK, typedOK]
@@ -434,6 +470,7 @@ func execRcpt(a []string) Result {
 			}
 			n, _ := v.ToIPLD()
 			a.out = nodeBytes(n)
+			disturb(r.Meta(), r.Fx().Fork(), r.Proofs())
 			fill(r.Ran().Link(), r.Issuer(), r.Fx(), r.Meta(), r.Proofs())
 		}
 		return a, nil
@@ -641,4 +678,18 @@ func execRcptConc(a []string) Result {
 		oracle = fmt.Sprintf("fail:C10-unverified %d of %d receipts issued concurrently by one signer are not authentic (%s)", bad, len(outs), why)
 	}
 	return Result{Impl: fmt.Sprintf("issued=%d|bad=%d", len(outs), bad), Oracle: oracle}
+}
+
+var (
+	sharedAnyOnce sync.Once
+	sharedAnyRdr  receipt.ReceiptReader[ipld.Node, ipld.Node]
+	sharedAnyErr  error
+)
+
+// sharedAnyReader: one untyped receipt reader for the whole process
+func sharedAnyReader() (receipt.ReceiptReader[ipld.Node, ipld.Node], error) {
+	sharedAnyOnce.Do(func() {
+		sharedAnyRdr, sharedAnyErr = receipt.NewReceiptReader[ipld.Node, ipld.Node](anyResultSchema)
+	})
+	return sharedAnyRdr, sharedAnyErr
 }
